@@ -22,11 +22,21 @@ import time
 from concurrent.futures import ThreadPoolExecutor
 
 ROOT = os.path.dirname(os.path.dirname(os.path.abspath(__file__)))
-REPO = os.environ.get("VERIF_REPO", "/repo")
+REPO = os.path.abspath(os.environ.get("VERIF_REPO") or "/repo")
 BUILD = os.path.join(ROOT, ".build")
-LEAN = os.path.join(ROOT, "lean")
-HARNESS = os.path.join(ROOT, "harness")
-TARGET = os.path.join(BUILD, "target")
+LEAN = os.environ.get("VERIF_LEAN") or os.path.join(ROOT, "lean")   # scratch copy while developing
+HARNESS_SRC = os.path.join(ROOT, "harness")
+if REPO == "/repo":
+    HARNESS = HARNESS_SRC
+    TARGET = os.path.join(BUILD, "target")
+    EVIDENCE = os.path.join(ROOT, "evidence")
+else:
+    # checking a scratch copy/worktree of the repository (mutation testing): private harness copy,
+    # private target dir, private evidence dir — nothing registered in MANIFEST.json uses this.
+    _h = hashlib.md5(REPO.encode()).hexdigest()[:8]
+    HARNESS = os.path.join(BUILD, "harness-" + _h)
+    TARGET = os.path.join(BUILD, "target-" + _h)
+    EVIDENCE = os.path.join(BUILD, "evidence-" + _h)
 BIN = os.path.join(TARGET, "debug")
 BRUSH = os.path.join(BIN, "brush")
 DRV = os.path.join(LEAN, ".lake", "build", "bin", "drv")
@@ -45,6 +55,8 @@ def log(*a):
 
 @contextlib.contextmanager
 def flock(name):
+    if name == "lake":
+        name = "lake-" + hashlib.md5((LEAN + "\n").encode()).hexdigest()[:8]
     path = os.path.join(BUILD, name + ".lock")
     with open(path, "w") as f:
         fcntl.flock(f, fcntl.LOCK_EX)
@@ -73,7 +85,23 @@ CARGO_ENV = {"CARGO_NET_OFFLINE": "true", "CARGO_TARGET_DIR": TARGET, "CARGO_TER
 def cargo_build(bins):
     """Build the brush binary and the given harness bins from /repo's current working tree.
     Returns (ok, log_text)."""
-    with flock("cargo"):
+    with flock("cargo-" + os.path.basename(TARGET)):
+        if HARNESS != HARNESS_SRC:
+            os.makedirs(os.path.join(HARNESS, "src", "bin"), exist_ok=True)
+            for dp, dn, fn in os.walk(HARNESS_SRC):
+                if "target" in dp.split(os.sep):
+                    continue
+                for f in fn:
+                    if f == "Cargo.lock":
+                        continue
+                    src = os.path.join(dp, f)
+                    dst = os.path.join(HARNESS, os.path.relpath(src, HARNESS_SRC))
+                    os.makedirs(os.path.dirname(dst), exist_ok=True)
+                    data = open(src, "rb").read()
+                    if f == "Cargo.toml":
+                        data = data.replace(b'"/repo/', ('"' + REPO + '/').encode())
+                    if not os.path.exists(dst) or open(dst, "rb").read() != data:
+                        open(dst, "wb").write(data)
         lock_src = os.path.join(REPO, "Cargo.lock")
         lock_dst = os.path.join(HARNESS, "Cargo.lock")
         try:
@@ -286,6 +314,18 @@ def run_shell(which, script, mode="c", stdin=None, timeout=20, cwd=None, env=Non
                 os.unlink(tmpf.name)
 
 
+def run_both(script, **kw):
+    """Run one script under brush and under bash (the oracle). Returns (brush_result, bash_result)."""
+    return run_shell("brush", script, **kw), run_shell("bash", script, **kw)
+
+
+def same_outcome(b, o, stderr=False):
+    """Observable agreement of two shell runs: exit status and stdout (stderr wording differs between shells)."""
+    if b["timeout"] or o["timeout"]:
+        return b["timeout"] == o["timeout"]
+    return b["rc"] == o["rc"] and b["out"] == o["out"] and (not stderr or b["err"] == o["err"])
+
+
 def pmap(fn, items, workers=NCPU):
     with ThreadPoolExecutor(max_workers=workers) as ex:
         return list(ex.map(fn, items))
@@ -299,7 +339,7 @@ def is_panic(r):
 # known findings
 
 def load_known(prop):
-    p = os.path.join(ROOT, "known_findings.json")
+    p = os.environ.get("VERIF_KNOWN") or os.path.join(ROOT, "known_findings.json")
     if not os.path.exists(p):
         return []
     data = json.load(open(p))
@@ -412,7 +452,7 @@ class Ctx:
     def finish(self):
         prop = self.prop
         wall = time.time() - self.t0
-        os.makedirs(os.path.join(ROOT, "evidence"), exist_ok=True)
+        os.makedirs(EVIDENCE, exist_ok=True)
         os.makedirs(os.path.join(ROOT, "replays"), exist_ok=True)
         for clause, case in self.known_hits.items():
             print("KNOWN-FINDING: property=%s %s: %s" % (prop, clause, self.known[clause].get("what_fails", "")))
@@ -459,7 +499,7 @@ class Ctx:
             cov["samples"] = ["(no correspondence cases in this run)"]
         ev = {"property_id": prop, "tier": self.tier, "seed": self.seed, "level": self.level, "coverage": cov,
               "assumptions": self.assumptions, "wall_s": round(wall, 2), "violations": len(viol_lines)}
-        json.dump(ev, open(os.path.join(ROOT, "evidence", prop + ".json"), "w"), indent=1, ensure_ascii=False, default=str)
+        json.dump(ev, open(os.path.join(EVIDENCE, prop + ".json"), "w"), indent=1, ensure_ascii=False, default=str)
         for l in viol_lines:
             print(l)
         print("%s %s: obligations %d/%d, cases %d (distinct non-trivial %d), known findings hit %d, violations %d, %.1fs"
